@@ -62,9 +62,11 @@ type c17Case struct {
 }
 
 type c17Msg struct {
-	ID    int64
-	Dwell time.Duration
-	Ask   bool
+	ID        int64
+	Dwell     time.Duration
+	Ask       bool
+	SelfStop  bool // the handler calls ctx.Shutdown()
+	StopChild *PID // the handler stops this child of its actor
 }
 
 type c17StopCmd struct{}
@@ -98,6 +100,12 @@ func (a *c17Actor) Receive(ctx *ReceiveContext) {
 		}
 		if m.Ask {
 			ctx.Response(m)
+		}
+		if m.StopChild != nil {
+			_ = ctx.Self().Stop(context.Background(), m.StopChild)
+		}
+		if m.SelfStop {
+			ctx.Shutdown()
 		}
 		cs.log.add("recv-exit", a.idx, tok)
 		cs.inflight.Add(-1)
@@ -178,11 +186,12 @@ type c17Knobs struct {
 	PreStop   int  // subtrees stopped (quiescently) before Stop
 	FromActor bool // Stop called from inside a handler
 	Activate  bool // a sender keeps activating fresh grains while Stop runs
+	StopTraffic bool // PoisonPill / ctx.Shutdown() / Stop(child) aimed at tree actors around the Stop call
 	Noise     int
 }
 
 func (k c17Knobs) String() string {
-	return fmt.Sprintf("actors=%d depth=%d grains=%d senders=%d dwell=%dus prestop=%d fromactor=%v activate=%v noise=%d", k.Actors, k.Depth, k.Grains, k.Senders, k.DwellUS, k.PreStop, k.FromActor, k.Activate, k.Noise)
+	return fmt.Sprintf("actors=%d depth=%d grains=%d senders=%d dwell=%dus prestop=%d fromactor=%v activate=%v stoptraffic=%v noise=%d", k.Actors, k.Depth, k.Grains, k.Senders, k.DwellUS, k.PreStop, k.FromActor, k.Activate, k.StopTraffic, k.Noise)
 }
 
 func c17GenKnobs(rng *rand.Rand) c17Knobs {
@@ -195,6 +204,7 @@ func c17GenKnobs(rng *rand.Rand) c17Knobs {
 		PreStop:   rng.Intn(3),
 		FromActor: rng.Intn(4) == 0,
 		Activate:  rng.Intn(3) == 0,
+		StopTraffic: rng.Intn(3) != 0,
 		Noise:     rng.Intn(3),
 	}
 }
@@ -216,6 +226,7 @@ type c17Obs struct {
 	HotSites     []string
 	StopDur      time.Duration
 	StartDur     time.Duration
+	StopTraffic  int
 }
 
 func c17RunCase(t *testing.T, k c17Knobs, seed int64) (obs c17Obs) {
@@ -406,6 +417,54 @@ func c17RunCase(t *testing.T, k c17Knobs, seed int64) (obs c17Obs) {
 
 	// let traffic flow, then stop
 	time.Sleep(time.Duration(2+rng.Intn(8)) * time.Millisecond)
+
+	// stop traffic: shortly before and while Stop runs, tree actors get a PoisonPill queued
+	// behind a busy handler, a message whose handler calls ctx.Shutdown(), or a message
+	// that makes their parent stop them
+	stopTargeted := make([]atomic.Bool, len(nodes))
+	var stopTrafficWG sync.WaitGroup
+	var stopTrafficSent atomic.Int64
+	if k.StopTraffic {
+		for g := 0; g < 2; g++ {
+			stopTrafficWG.Add(1)
+			trng := rand.New(rand.NewSource(seed ^ int64(0x5bd1e995*(g+1))))
+			go func() {
+				defer stopTrafficWG.Done()
+				defer func() { _ = recover() }()
+				for i := 0; i < 400 && !cs.stopped.Load(); i++ {
+					v := trng.Intn(len(nodes))
+					n := nodes[v]
+					if n.prestop {
+						continue
+					}
+					busy := time.Duration(200+trng.Intn(3000)) * time.Microsecond
+					switch trng.Intn(3) {
+					case 0:
+						if Tell(ctx, n.pid, &c17Msg{ID: msgID.Add(1), Dwell: busy}) == nil {
+							if Tell(ctx, n.pid, new(PoisonPill)) == nil {
+								stopTargeted[v].Store(true)
+								stopTrafficSent.Add(1)
+							}
+						}
+					case 1:
+						if Tell(ctx, n.pid, &c17Msg{ID: msgID.Add(1), Dwell: busy / 4, SelfStop: true}) == nil {
+							stopTargeted[v].Store(true)
+							stopTrafficSent.Add(1)
+						}
+					default:
+						if n.parent >= 0 {
+							if Tell(ctx, nodes[n.parent].pid, &c17Msg{ID: msgID.Add(1), Dwell: busy / 4, StopChild: n.pid}) == nil {
+								stopTargeted[v].Store(true)
+								stopTrafficSent.Add(1)
+							}
+						}
+					}
+					time.Sleep(time.Duration(50+trng.Intn(600)) * time.Microsecond)
+				}
+			}()
+		}
+		time.Sleep(time.Duration(200+rng.Intn(1500)) * time.Microsecond)
+	}
 	caller := -1
 	if k.FromActor {
 		// an actor that is still running
@@ -451,6 +510,8 @@ func c17RunCase(t *testing.T, k c17Knobs, seed int64) (obs c17Obs) {
 	time.Sleep(20 * time.Millisecond)
 	close(stopSenders)
 	sendersWG.Wait()
+	stopTrafficWG.Wait()
+	obs.StopTraffic = int(stopTrafficSent.Load())
 	if k.Noise > 0 {
 		verifrt.StopNoise()
 	}
@@ -523,7 +584,7 @@ func c17RunCase(t *testing.T, k c17Knobs, seed int64) (obs c17Obs) {
 	// 1. PostStop exactly once for every user actor
 	for i, n := range nodes {
 		if c := len(psEnter[i]); c != 1 {
-			viol(fmt.Sprintf("poststop-count:%d", c), map[string]any{"actor": i, "stopped_before_system_stop": n.prestop, "poststop_enter_seqs": psEnter[i], "stop_called_seq": stopCalled, "barrier_seq": barrier})
+			viol(fmt.Sprintf("poststop-count:%d", c), map[string]any{"actor": i, "stopped_before_system_stop": n.prestop, "targeted_by_stop_traffic": stopTargeted[i].Load(), "poststop_enter_seqs": psEnter[i], "stop_called_seq": stopCalled, "barrier_seq": barrier})
 			break
 		}
 	}
@@ -533,7 +594,12 @@ func c17RunCase(t *testing.T, k c17Knobs, seed int64) (obs c17Obs) {
 			continue
 		}
 		if psExit[i][0] > psEnter[n.parent][0] {
-			viol("parent-poststop-before-child", map[string]any{"child": i, "parent": n.parent, "child_poststop_exit_seq": psExit[i][0], "parent_poststop_enter_seq": psEnter[n.parent][0]})
+			sig := "parent-poststop-before-child"
+			if stopTargeted[i].Load() {
+				// the child was (also) being stopped by its own PoisonPill / ctx.Shutdown() / Stop(child)
+				sig += ":child-stopping-on-its-own"
+			}
+			viol(sig, map[string]any{"child": i, "parent": n.parent, "child_poststop_exit_seq": psExit[i][0], "parent_poststop_enter_seq": psEnter[n.parent][0]})
 			break
 		}
 	}
@@ -600,7 +666,7 @@ func c17RunCase(t *testing.T, k c17Knobs, seed int64) (obs c17Obs) {
 func TestVerif_C17(t *testing.T) {
 	r := verifrt.Start(t, "C17")
 	defer r.Finish()
-	r.Rule("case = fresh system with a random actor tree (1-30 actors, depth <= 4, 0-2 subtrees stopped quiescently beforehand), 0-20 grains (no / AllowAll / StashNonReentrant reentrancy), 2-8 sender goroutines doing Tell / Ask / TellGrain / AskGrain (and, in some cases, activating fresh grains) on random targets while Stop runs and after it returned, handler dwell up to 30ms, Stop called from an external goroutine or from inside an actor's handler, schedule noise in the stop path. Oracle over one totally ordered event log with a barrier appended right after Stop returns: PostStop count == 1 for every user actor; a child's PostStop exit precedes its parent's PostStop entry; no PostStop / OnDeactivate after the barrier; every grain activation has exactly one OnDeactivate when Stop returned nil; no handler invocation entered after the barrier or still running at the barrier (the invocation that called Stop excepted); every send issued after the barrier returns an error. non-trivial = handlers were entered between the Stop call and the barrier and the tree has more than one actor; distinct by knob tuple and seed")
+	r.Rule("case = fresh system with a random actor tree (1-30 actors, depth <= 4, 0-2 subtrees stopped quiescently beforehand), 0-20 grains (no / AllowAll / StashNonReentrant reentrancy), 2-8 sender goroutines doing Tell / Ask / TellGrain / AskGrain (and, in some cases, activating fresh grains) on random targets while Stop runs and after it returned, handler dwell up to 30ms, in two thirds of the cases stop traffic aimed at random tree actors from shortly before the Stop call until it returns (a PoisonPill queued behind a busy handler, a message whose handler calls ctx.Shutdown(), a message that makes the parent Stop(child)), Stop called from an external goroutine or from inside an actor's handler, schedule noise in the stop path. Oracle over one totally ordered event log with a barrier appended right after Stop returns: PostStop count == 1 for every user actor; a child's PostStop exit precedes its parent's PostStop entry; no PostStop / OnDeactivate after the barrier; every grain activation has exactly one OnDeactivate when Stop returned nil; no handler invocation entered after the barrier or still running at the barrier (the invocation that called Stop excepted); every send issued after the barrier returns an error. non-trivial = handlers were entered between the Stop call and the barrier and the tree has more than one actor; distinct by knob tuple and seed")
 	rng := r.Rand(17)
 	n := r.N(48, 1600)
 	for i := 0; i < n; i++ {
@@ -615,6 +681,7 @@ func TestVerif_C17(t *testing.T) {
 		r.Count("handler_invocations", int64(obs.Handled))
 		r.Count("handler_invocations_entered_during_stop", int64(obs.DuringStop))
 		r.Count("sends_issued_after_stop_returned", int64(obs.SendsAfter))
+		r.Count("stop_traffic_messages_accepted", int64(obs.StopTraffic))
 		r.Max("max_stop_duration_ms", int64(obs.StopDur/time.Millisecond))
 		r.Count("sum_stop_duration_ms", int64(obs.StopDur/time.Millisecond))
 		r.Count("sum_start_duration_ms", int64(obs.StartDur/time.Millisecond))
